@@ -1,7 +1,7 @@
 """C02: R-HYG (continuation never placed under a source-named binder), R-SEED (fresh-name seeding)."""
 from ..core import RuleResult
 from ..facts import AnalysisError
-from ..mir import Fn, Flow, op_root, place_fields, rvalue_places
+from ..mir import Fn, Flow, op_root, place_fields, rvalue_places, aggregates
 
 CORE_MU = "scc_core_lang::syntax::terms::mu::Mu"
 CORE_CLAUSE = "scc_core_lang::syntax::terms::clause::Clause"
@@ -88,7 +88,7 @@ def rule_hyg(ctx):
         tainted = _taint_forward(fn, conts)
         flow = Flow(fn, extra_pass=_name_pass)
         found = False
-        for bi, si, s in fn.stmts():
+        for bi, s in aggregates(fn, fx):       # Mu { .. } as well as Mu::tilde_mu(..)
             rv = s["rv"]
             if rv["k"] != "agg" or rv.get("agg") != "adt" or rv.get("adt") not in (CORE_MU, CORE_CLAUSE):
                 continue
@@ -364,7 +364,7 @@ def rule_seq(ctx):
         if f["crate"] != "fun2core" or "{promoted" in k:
             continue
         fn = Fn(f)
-        flow = Flow(fn)
+        flow = Flow(fn, fx=fx)      # `Mu::tilde_mu(var, stmt, ty)` is the aggregate it builds
         guards = []     # (false-successor block, origins of the tested type)
         for bi, t in fn.calls():
             if t.get("callee_name") == "is_codata" and t["args"]:
@@ -398,7 +398,7 @@ def rule_seq(ctx):
                 pr = op_root(pc) if pc else None
                 pc_org = flow.origins(pr, ()) if pr is not None else set()
                 is_tilde = any(x[0] == "agg" and (flow.agg_at(x).get("adt") or "").endswith("::Cns") for x in pc_org) or \
-                    (pr is not None and fn.local_ty(pr).endswith("Cns"))
+                    (pr is not None and fn.local_ty(pr).endswith("Cns")) or (pc is not None and pc.get("k") == "const" and str(pc.get("ty") or "").endswith("Cns"))
                 if not is_tilde:
                     continue
                 n += 1
@@ -407,6 +407,23 @@ def rule_seq(ctx):
                 tr = op_root(tyop) if tyop else None
                 ty_org = flow.origins(tr, ()) if tr is not None else set()
                 const_i64 = bool(ty_org) and all(x[0] == "agg" and flow.agg_at(x).get("variant") == "I64" for x in ty_org)
+                # `mu~ x. exit x`: the bound value is the exit code of the program, an integer by the typing of exit
+                st = flds.get("statement")
+                sr = op_root(st) if st else None
+                st_org = flow.origins(sr, ()) if sr is not None else set()
+
+                def _is_exit(x, depth=0):
+                    if x[0] != "agg" or depth > 3:
+                        return False
+                    a = flow.agg_at(x)
+                    if (a.get("adt") or "").endswith("exit::Exit"):
+                        return True
+                    if (a.get("adt") or "").endswith("Statement") and a.get("variant") == "Exit":
+                        return True
+                    return False
+                if st_org and all(_is_exit(x) for x in st_org):
+                    res.inst("%s@compile_with_cont:exit" % k, t["sp"]["file"], t["sp"]["line"], "ok", "the continuation is `mu~ x. exit x`: an exit code is an integer")
+                    continue
                 guarded = any(fn.dominates(g, bi) and (torg & ty_org) for g, torg in guards)
                 if const_i64 or guarded:
                     res.inst(ikey, t["sp"]["file"], t["sp"]["line"], "ok", "type fixed to i64" if const_i64 else "on the non-codata branch of an is_codata test")
